@@ -25,6 +25,7 @@ The model's normalisation shortcut norm_cont_diag is compared with Overlap.norm_
 A sample of one-axis cases (command 105) is re-evaluated inside Coq with vm_compute and must agree with the
 extracted code exactly."""
 import itertools
+import math
 import os
 import random
 import subprocess
@@ -44,7 +45,12 @@ RULE = ("all 125 order triples (each order 0..4) x both back-ends enumerated on 
         "Cartesian / spherical / mixed, with and without a random rectangular transform (entries k/4); centres k/16, "
         "exponents log-uniform 0.02..cap(l) with 8-bit mantissas, coefficients k/8; 1-50 points = offsets m/2^j from a "
         "centre, always including a point exactly on a centre, one on an axis through it and one on a coordinate "
-        "plane through it; evaluate_basis cases for every l 0..6 in both coordinate types; unknown back-end names. "
+        "plane through it; evaluate_basis cases for every l 0..6 in both coordinate types; unknown back-end names; "
+        "stream far_tight (quick 30, thorough 300 cases): one or two shells (l in 0,0,1,1,2, K 1-2, M 1-2) on ONE centre "
+        "100-150 bohr per axis from the coordinate origin (53-bit coordinates), exponents log-uniform within a factor 4 "
+        "below exp_cap(l) (1e5 for s, a decade less per l; 53-bit), points = the centre, a point on an axis and on a "
+        "coordinate plane through it and general points at offsets (0.2..3)/sqrt(alpha) per axis (53-bit), order "
+        "triples cycling through all 125 (general) / all 27 with every order <= 2 (direct) and evaluate_basis. "
         "A case is non-trivial when the exact result is not identically zero and (l>0 or K>1 or M>1 or total order>0 "
         "or more than one shell); distinct by the hash of the exact input")
 ASSUMPTIONS = [
@@ -75,7 +81,7 @@ def _tnp(t):
     return None if t is None else np.array([[float(Fraction(c)) for c in row] for row in t])
 
 
-def eval_case(model, case):
+def _eval_case(model, case):
     from gbasis.evals.eval import evaluate_basis
     from gbasis.evals.eval_deriv import evaluate_deriv_basis
 
@@ -134,6 +140,13 @@ def eval_case(model, case):
     scale = _scales(model, bsx, pts, orders, T)
     d = _cmp(impl, res, scale)
     return {"detail": d, "tag": tag, "nontrivial": bool((rich or total > 0) and _nonzero(res))}
+
+
+def eval_case(model, case):
+    out = _eval_case(model, case)
+    if case.get("stream") and out.get("tag"):
+        out["tag"] = "%s: %s" % (case["stream"], out["tag"])
+    return out
 
 
 def _nonzero(nested):
@@ -260,6 +273,63 @@ def full_mantissa(rng, basis, pts):
     return out
 
 
+def gen_far_tight(rng, n):
+    """Tight shells on a centre far from the coordinate origin ("any set of points", "any basis"): the values are
+    translation invariant, a formula that goes through absolute coordinates (|r|^2 - 2 r.R + |R|^2 for |r - R|^2)
+    loses alpha |R|^2 2^-53 ~ 1e-6 relative here, while (x - X) formed first is exact.  Short dyadic numbers near the
+    origin cannot show this (seeded change C05-mutc was missed by every other stream)."""
+    cases = []
+    g_triples = list(itertools.product(range(5), repeat=3))
+    d_triples = list(itertools.product(range(3), repeat=3))
+    rng.shuffle(g_triples)
+    rng.shuffle(d_triples)
+    for i in range(n):
+        centre = [Fraction(rng.choice([-1, 1]) * rng.uniform(100.0, 150.0)) for _ in range(3)]
+        nsh = 1 if i % 3 else 2
+        basis = []
+        for j in range(nsh):
+            l = (0, 0, 1, 1, 2)[(i + 2 * j) % 5]
+            cap = lib.exp_cap(l)
+            sh = gen_shell(rng, l=l, kmax=2, mmax=2, sph=(l == 2 and i % 2 == 1), coord=list(centre))
+            exps = []
+            while len(exps) < len(sh.exps):
+                e = Fraction(math.exp(rng.uniform(math.log(cap / 4.0), math.log(cap))))
+                if e not in exps:
+                    exps.append(e)
+            sh.exps = exps
+            basis.append(sh)
+        amax = float(max(e for s in basis for e in s.exps))
+        w = 1.0 / math.sqrt(amax)
+
+        def off():
+            return rng.choice([-1, 1]) * rng.uniform(0.2, 3.0) * w
+
+        cf = [float(c) for c in centre]
+        pts = [list(cf)]
+        ax = rng.randrange(3)
+        p = list(cf)
+        p[ax] = cf[ax] + off()
+        pts.append(p)                                           # on an axis through the centre
+        ax = rng.randrange(3)
+        p = [cf[k] + off() for k in range(3)]
+        p[ax] = cf[ax]
+        pts.append(p)                                           # on a coordinate plane through the centre
+        for _ in range(rng.randint(2, 4)):
+            pts.append([cf[k] + off() for k in range(3)])
+        pts = [[str(Fraction(x)) for x in p] for p in pts]
+        bj = [s.to_json() for s in basis]
+        mode = i % 15
+        if mode == 14:
+            cases.append({"kind": "basis", "stream": "far_tight", "basis": bj, "points": pts, "transform": None})
+        elif i % 2 == 0:
+            cases.append({"kind": "deriv", "stream": "far_tight", "basis": bj, "points": pts,
+                          "orders": list(g_triples[(i // 2) % 125]), "backend": "general", "transform": None})
+        else:
+            cases.append({"kind": "deriv", "stream": "far_tight", "basis": bj, "points": pts,
+                          "orders": list(d_triples[(i // 2) % 27]), "backend": "direct", "transform": None})
+    return cases
+
+
 def gen_cases(tier, seed):
     rng = random.Random(7000003 * seed + 5)
     quick = tier == "quick"
@@ -321,6 +391,8 @@ def gen_cases(tier, seed):
         basis = gen_basis(rng, 1, 1, kmax=2, mmax=1, lmax_rest=1, types="c")
         cases.append({"kind": "deriv", "basis": [s.to_json() for s in basis], "points": gen_points(rng, basis, 3),
                       "orders": [1, 0, 0], "backend": name, "transform": None})
+    # tight shells on a centre 100-150 bohr from the coordinate origin (own PRNG: the other streams keep their cases)
+    cases += gen_far_tight(random.Random(7000003 * seed + 55), 30 if quick else 300)
     return cases
 
 
